@@ -16,10 +16,13 @@ ELEM = {"A": "mdl::A", "B": "mdl::B"}
 
 
 def md_term(d: Dict[str, Any]) -> T.Term:
-    """A python literal (dict of str -> str | bool | int | list of str) as a term."""
+    """A python literal (dict of str -> str | bool | int | list/tuple of str) as a term; a tuple stays a tuple
+    (that is what `ast.literal_eval` hands to process_metadata when the query arrives as a Python AST)."""
 
     def lit(v):
-        if isinstance(v, (list, tuple)):
+        if isinstance(v, tuple):
+            return N("tuple", *[lit(x) for x in v])
+        if isinstance(v, list):
             return N("list", *[lit(x) for x in v])
         if isinstance(v, dict):
             return N("dict", *([C(k) for k in v.keys()] + [lit(x) for x in v.values()]))
@@ -409,9 +412,68 @@ def needed_model(q: T.Term, backend: str) -> List[Dict[str, Any]]:
     return out
 
 
+def tupleize(rng, mds: List[Dict[str, Any]], p_query: float = 0.5, p_key: float = 0.5) -> List[Dict[str, Any]]:
+    """Write some of the list-valued metadata entries as tuples, the way a Python caller may
+    (`'include_files': ('a.h', 'b.h')`).  The choice is made per key name for the whole query, so that two equal
+    dictionaries stay equal.  qastle has no tuples: over the wire they arrive as lists."""
+    if rng.random() >= p_query:
+        return mds
+    keys = sorted({k for m in mds for k, v in m.items() if isinstance(v, list)})
+    chosen = {k for k in keys if rng.random() < p_key}
+    return [{k: (tuple(v) if k in chosen and isinstance(v, list) else v) for k, v in m.items()} for m in mds]
+
+
 def make_query(rng, backend: str, depth: int = 2) -> Tuple[T.Term, List[Dict[str, Any]], Dict[str, int]]:
     """(metadata-free query, metadata items, feature counts)"""
     g = Gen(rng, backend)
     q = g.query(depth)
-    mds = needed_model(q, backend) + extra_md(rng, backend)
+    mds = tupleize(rng, needed_model(q, backend) + extra_md(rng, backend))
+    for m in mds:
+        for k, v in m.items():
+            if isinstance(v, tuple):
+                g.feat("metadata-tuple:" + k)
     return q, mds, g.features
+
+
+def wire_metadata_cases(backend: str) -> List[Tuple[str, T.Term, List[Dict[str, Any]]]]:
+    """Small fixed queries, one per list-valued metadata key of every metadata kind, with that entry written as a
+    tuple (and one with all of them): (label, metadata-free query, metadata items)."""
+    dm = {(m["metadata_type"], m.get("name") or m.get("method_name")): m for m in data_model(backend)}
+    coll = dm[(COLL_MD[backend], "CollA")]
+    twice = dict(dm[("add_cpp_function", "twice")], include_files=["mdl/fn.h", "mdl/fn2.h"])
+    scaled = dict(dm[("add_cpp_function", "scaled")], include_files=["mdl/sc.h"])
+    inject = {
+        "metadata_type": "inject_code",
+        "name": "blk",
+        "body_includes": ["b1.h", "b2.h"],
+        "header_includes": ["h1.h", "h2.h"],
+        "private_members": ["int m_a;", "int m_b;"],
+        "instance_initialization": ["m_a(0)", "m_b(1)"],
+        "ctor_lines": ["m_a = 1;", "m_b = 2;"],
+        "initialize_lines": ["m_a = 3;", "m_b = 4;"],
+        "link_libraries": ["libA", "libB"],
+    }
+    s1 = {"metadata_type": "add_job_script", "name": "s1", "script": ["# one", "# two"], "depends_on": []}
+    s2 = {"metadata_type": "add_job_script", "name": "s2", "script": ["# three"], "depends_on": ["s1"]}
+    enum = {"metadata_type": "define_enum", "namespace": "mdlns", "name": "Color", "values": ["Red", "Blue"]}
+    ds = call("EventDataset", C("ds"))
+    jets = call("SelectMany", ds, L(["e"], meth(V("e"), "CollA", C("a"))))
+    q_fn = call("Select", jets, L(["j"], call("twice", meth(V("j"), "d"))))
+    q_m = call("Select", jets, L(["j"], meth(V("j"), "scaled", C(2))))
+    q_plain = call("Select", jets, L(["j"], meth(V("j"), "d")))
+    groups = [
+        ("cpp_function", q_fn, [coll], twice, ["include_files", "arguments", "code"]),
+        ("cpp_method", q_m, [coll], scaled, ["include_files", "arguments", "code"]),
+        ("collection", q_plain, [], coll, ["include_files"]),
+        ("inject_code", q_plain, [coll], inject, [k for k, v in inject.items() if isinstance(v, list)]),
+        ("job_script", q_plain, [coll, s1], s2, ["script", "depends_on"]),
+        ("job_script_first", q_plain, [coll], s1, ["script", "depends_on"]),
+        ("define_enum", q_plain, [coll], enum, ["values"]),
+    ]
+    out = []
+    for label, q, others, item, keys in groups:
+        for k in keys:
+            out.append((f"{label}.{k}", q, others + [dict(item, **{k: tuple(item[k])})]))
+        if len(keys) > 1:
+            out.append((f"{label}.all", q, others + [{k: (tuple(v) if k in keys else v) for k, v in item.items()}]))
+    return out
